@@ -9,7 +9,7 @@ from . import csrc
 from .csrc import ExtractError
 
 ORDER = ["runFilter", "timerCheck", "pushSkipsStale", "popSkipsStale", "closeChecks", "procCheck", "deadlineChecks",
-         "didResumeDetaches", "scheduleBumps", "canceledGuard", "sleepRounds"]
+         "didResumeDetaches", "scheduleBumps", "canceledGuard", "sleepRounds", "hasReaderChecks", "timeoutAfterValidation"]
 
 
 def body(src, name):
@@ -88,6 +88,54 @@ def extract(tree):
     if "ts+=" not in td:
         raise ExtractError("ts_delta: not recognised")
     c["sleepRounds"] = "ts+=(int64_t)round(delta*1000);" in td
+    # select: the "give can complete now" decision
+    choice = sq(body(ev, "cfun_channel_choice"))
+    if "janet_channel_push_with_lock(chan,data[1],1);chan_unlock_args(argv,i);returnmake_write_result(chan);" not in choice:
+        raise ExtractError("cfun_channel_choice: immediate give path not recognised")
+    m = re.search(r"if\(janet_q_count\(&chan->items\)<chan->limit(.*?)\)\{janet_channel_push_with_lock\(chan,data\[1\],1\);", choice)
+    if not m:
+        raise ExtractError("cfun_channel_choice: readiness test of the give clause not recognised")
+    extra_cond = m.group(1)
+    if extra_cond == "":
+        c["hasReaderChecks"] = True          # only "room in the channel" counts as ready: nothing to check
+    elif extra_cond == "||janet_channel_has_reader(chan)":
+        hr = sq(body(ev, "janet_channel_has_reader"))
+        c["hasReaderChecks"] = bool(re.search(
+            r"if\(janet_chan_is_threaded\(channel\)\)returnq->head!=q->tail;for\(int32_ti=q->head;i!=q->tail;i=\(i\+1<q->capacity\)\?i\+1:0\)"
+            r"\{if\(pending\[i\]\.sched_id==pending\[i\]\.fiber->sched_id\)return1;\}return0;\}$", hr))
+    else:
+        raise ExtractError("cfun_channel_choice: unknown readiness condition `%s`" % extra_cond)
+    # timeouts of stream cfuns are armed only after every argument check, directly before the wait starts
+    c["timeoutAfterValidation"] = True
+    nsites = 0
+    for rel in ("src/core/ev.c", "src/core/net.c"):
+        src = csrc.strip_comments(csrc.read(tree, rel))
+        for mm in re.finditer(r"janet_addtimeout(?:_nil)?\s*\(", src):
+            # skip the definitions themselves
+            line_start = src.rfind("\n", 0, mm.start()) + 1
+            if src[line_start:mm.start()].strip().startswith("void"):
+                continue
+            nsites += 1
+            # enclosing block: walk back to the unmatched '{'
+            depth, i = 0, mm.start()
+            while i > 0:
+                i -= 1
+                if src[i] == "}":
+                    depth += 1
+                elif src[i] == "{":
+                    if depth == 0:
+                        break
+                    depth -= 1
+            end = csrc.match_brace(src, i)
+            rest = sq(src[mm.end():end])
+            before = sq(src[max(0, i - 3000):mm.start()])
+            # janet_getbuffer(argv,K) cannot fail after janet_checktype(argv[K],JANET_BUFFER)
+            for k in re.findall(r"janet_checktype\(argv\[(\d+)\],JANET_BUFFER\)", before):
+                rest = rest.replace("janet_getbuffer(argv,%s)" % k, "")
+            if re.search(r"janet_(get|opt)\w*\(|janet_(fix)?arity\(|janet_stream_flags\(|janet_panic\w*\(|janet_keyeq\(", rest):
+                c["timeoutAfterValidation"] = False
+    if nsites < 10:
+        raise ExtractError("expected >= 10 janet_addtimeout call sites in ev.c / net.c, found %d" % nsites)
     # registrations record the current generation (shape facts the model relies on unconditionally)
     need = [("janet_sleep_await", "to.sched_id=to.fiber->sched_id;"), ("janet_addtimeout", "to.sched_id=fiber->sched_id;"),
             ("janet_channel_push_with_lock", "pending.sched_id=janet_vm.root_fiber->sched_id"),
